@@ -60,7 +60,11 @@ pub fn plain_ident(s: &str) -> bool {
 
 /// Appendix A `PlainFor P R` on names.
 fn name_plain_for(p: &str, r: &str, s: &str, keyword: bool) -> bool {
-    if !plain_ident(s) {
+    // with leading-digit symbols (the Emacs Lisp preset) a digit-initial name that is not a numeric literal is a
+    // symbol too: "the Emacs Lisp printer options with the Emacs Lisp parser options round-trip every value"
+    let digit_name = d(r, 9) == 1 && s.starts_with(|c: char| c.is_ascii_digit()) && !is_numeric_literal(s)
+        && s.chars().skip(1).all(is_subsequent) && !s.ends_with(':') && !s.contains('.');
+    if !plain_ident(s) && !digit_name {
         return false;
     }
     if d(r, 7) == 1 && s.starts_with('?') {
@@ -610,8 +614,12 @@ pub fn check(line: &str, res: &str) -> Vec<String> {
     if let Some(k) = crate::codec::KIND_FAIL.lock().unwrap().take() {
         m.push(format!("FAIL C19 conversion to std::io::Error: {}", k));
     }
+    if let Some(k) = crate::ops::COHERENCE_FAIL.lock().unwrap().take() {
+        m.push(format!("FAIL C20 a number returned by the parser is not coherent: {}", k));
+    }
     let m = check_inner(line, res, &t, m);
     crate::codec::KIND_FAIL.lock().unwrap().take(); // re-executions inside the oracle do not count
+    crate::ops::COHERENCE_FAIL.lock().unwrap().take();
     m
 }
 
@@ -819,6 +827,13 @@ fn check_inner(line: &str, res: &str, t: &[&str], mut m: Vec<String>) -> Vec<Str
             let items: Vec<&str> = res.split(" | ").collect();
             if items.iter().any(|i| *i == "panic") { m.push("FAIL C03 parser panicked".into()); }
             if !utf8_payloads_ok(res) { m.push("FAIL C17 a parsed string/symbol/keyword is not valid UTF-8".into()); }
+            // bytes that are not UTF-8 can only stand inside a string, a symbol, a character or a comment: without a
+            // comment in the input, a byte source must answer with an error somewhere (or with Emacs unibyte bytes)
+            if src != "s" && std::str::from_utf8(&data).is_err() && !data.contains(&b';') && !items.is_empty()
+                && (items.last() == Some(&"none") || api == "v1" || api == "d1")      // the whole input was read
+                && items.iter().all(|i| i.starts_with("val ") || i.starts_with("dat ") || *i == "none") && !res.contains(" X") && !res.contains(" B") {
+                m.push(format!("FAIL C17 input that is not valid UTF-8 was accepted without an error: {}", res.chars().take(120).collect::<String>()));
+            }
             for it in &items {
                 let body = if let Some(b) = it.strip_prefix("val ") { Some(b.to_string()) } else if it.starts_with("dat ") { Some(strip_dat(it)[4..].to_string()) } else { None };
                 if let Some(body) = body {
